@@ -310,6 +310,7 @@ PROPS = {
         "units": [
             {"pkg": "./c05", "shards": 4, "shards_thorough": 16, "timeout": 300},
             {"pkg": "./mainpkg", "run": "^TestC05", "shards": 2, "shards_thorough": 4, "timeout": 300},
+            {"pkg": "./c02", "run": "^TestC05", "shards": 2, "shards_thorough": 4, "timeout": 300},
         ],
         "rule": ("rapid-generated programs of 1-25 well-formed route add/del/weight commands (all documented forms, flexible spacing) over 3 services, 6 hosts in random letter case, "
                  "4 paths, 4 targets, tags incl. backslash and non-ASCII, option maps, weights with <=4 decimals. Oracle: independent in-harness model of the documented semantics "
